@@ -4,7 +4,7 @@ from mc.tasks import base
 
 PID = "C08"
 LEVEL = "model_checking"
-KINDS = ("shift", "permute", "relabel")
+KINDS = ("shift", "permute", "permute-occurrences", "relabel")
 
 
 def replay(case, acc):
